@@ -154,10 +154,121 @@ func seedControls(base *Ctx, id string, baseRep *Report) []controlResult {
 	return out
 }
 
+// refactorControls: negative controls. /verif/refactors/<tag>/patch.diff are behaviour-preserving
+// refactorings (helper extraction, inverted conditions, switch for if-chains, pre-sized make for append,
+// concatenation for Sprintf, renames …) written independently of the checker; each passes the
+// repository's tests. For every one whose meta.json lists this property the check must stay silent:
+// a report on such a tree is a false alarm.
+func refactorControls(base *Ctx, id string, baseRep *Report) []controlResult {
+	var out []controlResult
+	metas, _ := filepath.Glob(filepath.Join(verifRoot, "refactors", "*", "meta.json"))
+	sort.Strings(metas)
+	for _, mf := range metas {
+		b, err := os.ReadFile(mf)
+		if err != nil {
+			continue
+		}
+		var meta struct {
+			Properties []string `json:"properties"`
+		}
+		if json.Unmarshal(b, &meta) != nil {
+			continue
+		}
+		applies := false
+		for _, p := range meta.Properties {
+			if p == id {
+				applies = true
+			}
+		}
+		if !applies {
+			continue
+		}
+		name := "refactor:" + filepath.Base(filepath.Dir(mf))
+		patch := filepath.Join(filepath.Dir(mf), "patch.diff")
+		pb, err := os.ReadFile(patch)
+		if err != nil {
+			out = append(out, controlResult{name, "skipped", "patch.diff missing"})
+			continue
+		}
+		var files []string
+		for _, line := range strings.Split(string(pb), "\n") {
+			if strings.HasPrefix(line, "+++ b/") {
+				files = append(files, strings.TrimPrefix(line, "+++ b/"))
+			}
+		}
+		tmp, err := os.MkdirTemp("", "kafcheck-ref-")
+		if err != nil {
+			out = append(out, controlResult{name, "skipped", err.Error()})
+			continue
+		}
+		okCopy := true
+		for _, f := range files {
+			src, err := os.ReadFile(filepath.Join(base.Repo, f))
+			if err != nil {
+				okCopy = false
+				break
+			}
+			os.MkdirAll(filepath.Dir(filepath.Join(tmp, f)), 0o755)
+			os.WriteFile(filepath.Join(tmp, f), src, 0o644)
+		}
+		if !okCopy {
+			os.RemoveAll(tmp)
+			out = append(out, controlResult{name, "skipped", "a patched file no longer exists"})
+			continue
+		}
+		cmd := exec.Command("patch", "-p1", "-s", "--no-backup-if-mismatch", "-d", tmp, "-i", patch)
+		if outp, err := cmd.CombinedOutput(); err != nil {
+			os.RemoveAll(tmp)
+			out = append(out, controlResult{name, "skipped", "patch no longer applies to the current source: " + strings.TrimSpace(string(outp))})
+			continue
+		}
+		overlay := map[string][]byte{}
+		for _, f := range files {
+			nb, _ := os.ReadFile(filepath.Join(tmp, f))
+			overlay[filepath.Join(base.Repo, f)] = nb
+		}
+		os.RemoveAll(tmp)
+		ctx := &Ctx{Repo: base.Repo, Tier: "quick", Overlay: overlay, mods: map[string]*Module{}}
+		rep := runProp(ctx, id)
+		alarm := ""
+		for _, r := range rep.Results {
+			if r.Status != Violation && r.Status != Undecided && r.Status != Unresolved {
+				continue
+			}
+			already := false
+			for _, br := range baseRep.Results {
+				if br.Rule == r.Rule && br.Construct == r.Construct && (br.Status == r.Status || br.Status == Known) {
+					already = true
+				}
+			}
+			// a known finding keyed by construct stays known on the refactored tree
+			for _, f := range loadKnown().Findings {
+				if f.Property == id && f.Rule == r.Rule && f.Construct == r.Construct {
+					already = true
+				}
+			}
+			if !already {
+				alarm = fmt.Sprintf("%s %s | %s | %s", r.Status, r.Rule, r.Construct, r.Detail)
+				break
+			}
+		}
+		if alarm != "" {
+			out = append(out, controlResult{name, "false-alarm", alarm})
+		} else {
+			out = append(out, controlResult{name, "quiet", "no report on the behaviour-preserving variant"})
+		}
+		ctx = nil
+		runtime.GC()
+		debug.FreeOSMemory()
+	}
+	return out
+}
+
 func runControls(base *Ctx, id string, baseRep *Report) []controlResult {
 	var out []controlResult
 	defer func() {}()
 	out = append(out, seedControls(base, id, baseRep)...)
+	out = append(out, refactorControls(base, id, baseRep)...)
 	for _, c := range loadControls(id) {
 		abs := filepath.Join(base.Repo, c.File)
 		src, err := os.ReadFile(abs)
